@@ -1125,6 +1125,8 @@ class TLSConnection(TLSRecordLayer):
                                           "in HRR and Server Hello"):
                 yield result
         if real_version < settings.minVersion:
+            # the alert must not use (SSLv2) framing of a bogus version
+            self.version = settings.minVersion
             for result in self._sendError(
                     AlertDescription.protocol_version,
                     "Too old version: {0} (min: {1})"
